@@ -106,8 +106,14 @@ def gen_spec(seed, index, tier):
             # the hull-based classes use no vendored helper with absolute tolerances:
             # some runs live at very small sizes
             sc = 10 ** shape_rng.uniform(-8, -3)
+        kw = {}
+        if cls in ("ConvexPolyhedron", "ConvexSpheropolyhedron") and sc > 1e-2 and \
+                shape_rng.chance(0.06):
+            # almost axis-aligned: hull facets coplanar only to ~1e-8, which the constructor
+            # does not merge (merge_faces then has real work to do on a convex class)
+            kw = {"rotate": False, "noise": 10 ** shape_rng.uniform(-10, -7.5)}
         cand = gen.gen_base(shape_rng, cls, allow_scramble=True,
-                            allow_invalid_faces=shape_rng.chance(0.05), scale=sc)
+                            allow_invalid_faces=shape_rng.chance(0.05), scale=sc, **kw)
         try:
             obj = gen.build(cand)
             base = cand
@@ -265,6 +271,10 @@ def _execute(spec, world):
         res["sets"]["bigrams"].add("%s:%s>%s" % (cls, prev_op, name))
         prev_op = name
         g_pre = history.geometry(obj)
+        try:
+            nf_pre = len((history.target_of(obj) or obj).faces)
+        except Exception:  # noqa: BLE001
+            nf_pre = None
         r = history.apply(obj, st, world, scribble=True)
         try:
             g_post = history.geometry(obj)
@@ -282,6 +292,36 @@ def _execute(spec, world):
         C["ops_ok" if r["outcome"] == "ok" else "ops_refused"] += 1
         if moved:
             C["ops_that_changed_geometry"] += 1
+
+        # structural invariant (never excused by the conditioning guard): one plane equation
+        # and one neighbour list per face, whatever the geometry looks like
+        try:
+            core = history.target_of(obj) or obj
+            if hasattr(type(core), "equations") and hasattr(type(core), "faces"):
+                nf, ne = len(core.faces), len(core.equations)
+                nn = len(core.neighbors) if hasattr(type(core), "neighbors") else nf
+                if not (nf == ne == nn):
+                    res["violations"].append(violation(
+                        PROP, "structure", "after %s (%s): %d faces, %d plane equations, %d "
+                        "neighbour lists" % (name, r["outcome"], nf, ne, nn), si, cls=cls,
+                        op=name, what="faces-equations-neighbours-lengths-differ"))
+                    break
+        except Exception as e:  # noqa: BLE001
+            if type(e).__name__ == "HarnessTimeout":
+                raise
+
+        try:
+            nf_post = len((history.target_of(obj) or obj).faces)
+        except Exception:  # noqa: BLE001
+            nf_post = None
+        if cycles and r["outcome"] == "ok" and st.get("name") == "merge_faces" and \
+                nf_pre != nf_post:
+            # merge_faces(atol, rtol) merged hull facets that the constructor's own (much
+            # tighter) tolerance keeps apart: from here on a freshly constructed hull is no
+            # reference for the face structure.  The structural invariant above was judged;
+            # the history is not continued.
+            C["convex_merge_coarser_than_constructor"] += 1
+            break
 
         if r["outcome"] == "ok" and (st.get("arg") or {}).get("kind") == "bad" and not (
                 st.get("prop") == "radius" and st["arg"].get("bad") == "zero"):
